@@ -32,7 +32,7 @@ ASSUMPTIONS = [
     "two spellings of one file are compared as the same file (normalised path); the listing must be sorted as printed and free of duplicates",
     "files are tiny clean documents, so scan/fix order is observed through the order in which the documents are opened",
 ]
-PROBES = ["trees_with_symlinks", "model_error_missing", "model_error_ineligible", "model_error_glob", "model_empty_selection", "dup_spellings", "recurse", "alt_ext", "glob_arg", "dir_named_like_file", "api_list_path", "cmd:scan", "cmd:fix", "cmd:list"]
+PROBES = ["directory_links", "directory_links_dotdot_argument", "trees_with_symlinks", "model_error_missing", "model_error_ineligible", "model_error_glob", "model_empty_selection", "dup_spellings", "recurse", "alt_ext", "glob_arg", "dir_named_like_file", "api_list_path", "cmd:scan", "cmd:fix", "cmd:list"]
 
 DOC = b"# T\n"
 FILE_NAMES = ["a.md", "b.md", "c.md", "B.MD", "notes.txt", "x.markdown", "README", "a[1].md", "q?.md", "qa.md", "s*r.md", "star.md", ".hidden.md", "z.md.bak", "md"]
@@ -104,7 +104,117 @@ def gen_args(rng, files, dirs):
     return args
 
 
+# ------------------------------------------------------------------ directory links
+#
+# A fixed tree with symbolic links to DIRECTORIES, and argument spellings that go through
+# them (link/.., link/../a.md): here "which file does this spelling designate" is decided
+# by the file system, not by the text of the path.  The expectation comes from a small
+# physical resolver (below), independent of the textual model used for the other trees.
+
+DL_FILES = ["a.md", "b.md", "notes.txt", "real/a.md", "real/b.md", "real/notes.txt", "real/deep/d.md", "real/deep/e.md", "other/a.md"]
+DL_DIRS = ["real", "real/deep", "other"]
+DL_LINKS = {"link": "real/deep", "other/up": "real"}
+DL_ARGS = [
+    "a.md", "./a.md", "link/../a.md", "real/a.md", "real/deep/../a.md", "other/up/a.md", "other/a.md", "other/up/deep/../b.md", "real/b.md", "b.md",
+    "link/d.md", "real/deep/d.md", "other/up/deep/d.md", "link/../deep/e.md",
+    "link/..", "link/../", "link", "link/", "real/deep", "real", "real/", "other/up", "other/up/", "other/up/deep/..", "other/up/deep", "other", ".",
+]
+
+
+def _dl_resolve(path):
+    current = []
+    for part in [p for p in path.split("/") if p not in ("", ".")]:
+        if part == "..":
+            if not current:
+                return None
+            current.pop()
+            continue
+        current.append(part)
+        here = "/".join(current)
+        if here in DL_LINKS:
+            current = DL_LINKS[here].split("/")
+    return "/".join(current)
+
+
+def _dl_expected(args, recurse):
+    spelled = {}
+
+    def add(real, spelling):
+        if real not in spelled or spelling < spelled[real]:
+            spelled[real] = spelling
+
+    for arg in args:
+        real = _dl_resolve(arg)
+        if real in DL_FILES:
+            if real.endswith(".md"):
+                add(real, arg)
+            continue
+        prefix = arg[:-1] if arg.endswith("/") and len(arg) > 1 else arg
+        for name in DL_FILES:
+            if not name.endswith(".md"):
+                continue
+            folder = name.rsplit("/", 1)[0] if "/" in name else ""
+            inside = folder == real or (recurse and (real == "" or folder.startswith(real + "/")))
+            if inside:
+                add(name, prefix + "/" + (name[len(real) + 1 :] if real else name))
+    return sorted(spelled.values())
+
+
+def _generate_dirlink(rng):
+    args = rng.sample(DL_ARGS, rng.choice([1, 2, 2, 3]))
+    return {
+        "dirlink": True,
+        "cls": workload.draw_class(rng),
+        "world": workload.draw_world(rng),
+        "tree_files": list(DL_FILES),
+        "tree_dirs": list(DL_DIRS),
+        "symlinks": dict(DL_LINKS),
+        "args": args,
+        "recurse": rng.random() < 0.4,
+        "alt": None,
+        "command": "list",
+        "scheme": "default",
+        "perm_key": rng.randrange(1 << 20),
+    }
+
+
+def _evaluate_dirlink(sc):
+    stats = collections.Counter({"directory_links": 1})
+    out = []
+    value = None
+    args = list(sc["args"])
+    orders = [args] + ([list(reversed(args))] if len(args) > 1 else [])
+    want = _dl_expected(args, sc["recurse"])
+    if any(".." in a for a in args):
+        stats["directory_links_dotdot_argument"] += 1
+    for order in orders:
+        reply = run(_request(sc, order), sc["cls"])
+        if value is None:
+            value = event_digest(reply)
+        if not done(reply):
+            return {"violations": [], "evals": 1, "digests": [(value, False)], "stats": {"not_done": 1}, "faults": {}, "skipped": True}
+        listed, exit_code, view = _observe(sc, reply)
+        if view is not None and view.exc:
+            out.append(violation("C19/traceback", "C19/traceback", {"args": order, "exc": view.exc}))
+            break
+        if listed != want:
+            reals = [_dl_resolve(p) for p in listed]
+            kind = "listed-twice" if len(set(reals)) != len(reals) else "missing" if set(want) - set(listed) else "extra-or-order"
+            out.append(
+                violation(
+                    "C19/selection-differs",
+                    "C19/selection-differs|directory-links|%s" % kind,
+                    {"args": order, "recurse": sc["recurse"], "listed": listed, "expected": want, "links": DL_LINKS, "tree_files": DL_FILES, "exit": exit_code},
+                )
+            )
+            break
+    key = ("dirlink", tuple(args), sc["recurse"])
+    return {"violations": out, "evals": len(orders), "digests": [(repr(key), True)], "stats": dict(stats), "faults": {}}
+
+
 def generate(rng, tier, index):
+    if index % 10 == 9:
+        return _generate_dirlink(rng)
     files, dirs = gen_tree(rng)
     args = gen_args(rng, files, dirs)
     symlinks = gen_symlinks(rng, files, dirs)
@@ -372,6 +482,8 @@ def _observe(sc, reply):
 def evaluate(sc):
     import random
 
+    if sc.get("dirlink"):
+        return _evaluate_dirlink(sc)
     stats = collections.Counter()
     out = []
     model = Model(sc["tree_files"], sc["tree_dirs"], sc["alt"], sc.get("symlinks"))
@@ -474,6 +586,22 @@ def evaluate(sc):
 
 
 def reductions(sc):
+    if sc.get("dirlink"):
+        # the tree is fixed; only the argument list, the flag and the world shrink
+        if len(sc["args"]) > 1:
+            for index in range(len(sc["args"])):
+                candidate = copy.deepcopy(sc)
+                candidate["args"].pop(index)
+                yield candidate
+        if sc["recurse"]:
+            candidate = copy.deepcopy(sc)
+            candidate["recurse"] = False
+            yield candidate
+        if sc["world"] != NEUTRAL_WORLD:
+            candidate = copy.deepcopy(sc)
+            candidate["world"] = dict(NEUTRAL_WORLD)
+            yield candidate
+        return
     if len(sc["args"]) > 1:
         for index in range(len(sc["args"])):
             candidate = copy.deepcopy(sc)
